@@ -1,4 +1,6 @@
-import Props.SlicesGen
+import Props.GenHeads
+import Props.GenJoin
+import Props.GenTraverse
 open Model.SlicesGen
 #print axioms traverse_eq
 #print axioms findHeads_eq
